@@ -215,7 +215,8 @@ pub fn days_in_month(y: i64, m: i64) -> i64 {
 
 /// local (UTC) civil fields -> epoch micros, `None` when a part is out of its natural range
 pub fn ts_from_parts(y: i64, mo: i64, d: i64, h: i64, mi: i64, s: i64, us: i64) -> Option<i64> {
-    if !(-200000..=200000).contains(&y) { return None; }
+    // chrono's calendar reaches years -262143 ..= 262142
+    if !(-262143..=262142).contains(&y) { return None; }
     if !(1..=12).contains(&mo) { return None; }
     if d < 1 || d > days_in_month(y, mo) { return None; }
     if !(0..24).contains(&h) || !(0..60).contains(&mi) || !(0..60).contains(&s) || !(0..1_000_000).contains(&us) { return None; }
